@@ -19,7 +19,7 @@ func EncodeMessage(msg *gmqtt.Message, b *bytes.Buffer) {
 	b.WriteByte(msg.QoS)
 	WriteBool(b, msg.Retained)
 	WriteString(b, []byte(msg.Topic))
-	WriteString(b, []byte(msg.Payload))
+	WriteBytes(b, msg.Payload)
 	WriteUint16(b, msg.PacketID)
 
 	if len(msg.ContentType) != 0 {
@@ -74,7 +74,7 @@ func DecodeMessage(b *bytes.Buffer) (msg *gmqtt.Message, err error) {
 		return
 	}
 	msg.Topic = string(topic)
-	msg.Payload, err = ReadString(b)
+	msg.Payload, err = ReadBytes(b)
 	if err != nil {
 		return
 	}
